@@ -86,11 +86,102 @@ pub fn groups_by_nonunique_nullfree_key(sql: &str, db: &[Table]) -> bool {
 }
 
 pub fn gen_stmt(rng: &mut Rng, db: &[Table]) -> GenQuery {
+    // Q10-shaped Top-N over fact JOIN dimension on the dimension's unique key
+    // (what GroupKeyReduction's deferred decoration and join pruning match)
+    if db.len() >= 2 && rng.chance(1, 8) {
+        let (f, d) = (&db[0], &db[1]);
+        let n = *rng.pick(&[1usize, 2, 3, 5, 10]);
+        let agg = *rng.pick(&["SUM(f.i1)", "COUNT(*)", "MAX(f.i1)", "SUM(f.f0)"]);
+        let core = format!("SELECT d.id AS c0, d.s0 AS c1, {} AS c2 FROM {} AS f JOIN {} AS d ON f.i0 = d.id GROUP BY d.id, d.s0", agg, f.name, d.name);
+        let mut q = GenQuery { sql: String::new(), full_sql: core.clone(), keys: vec![], limit: Some(n), offset: 0, tags: vec!["q10-topn".into(), "JOIN".into(), "group-by".into(), "order-by".into(), "limit".into()], ncols: 3 };
+        q.sql = format!("{} ORDER BY c2 DESC NULLS LAST, c0 LIMIT {}", core, n);
+        q.keys = vec![crate::canon::SortKey { col: 2, desc: true, nulls_first: false }, crate::canon::SortKey { col: 0, desc: false, nulls_first: false }];
+        return q;
+    }
+    // the same shape over a customer/order pair with distinct column names
+    // (unqualified references), dimension first
+    if db.iter().any(|t| t.name == "cust") && rng.chance(1, 3) {
+        let n = *rng.pick(&[1usize, 2, 3, 5]);
+        let core = "SELECT c_id, c_name, SUM(o_amt) AS rev FROM cust JOIN ord ON c_id = o_cid GROUP BY c_id, c_name".to_string();
+        let mut q = GenQuery { sql: String::new(), full_sql: core.clone(), keys: vec![], limit: Some(n), offset: 0, tags: vec!["q10-topn".into(), "JOIN".into(), "group-by".into(), "order-by".into(), "limit".into()], ncols: 3 };
+        q.sql = format!("{} ORDER BY rev DESC, c_id LIMIT {}", core, n);
+        q.keys = vec![crate::canon::SortKey { col: 2, desc: true, nulls_first: false }, crate::canon::SortKey { col: 0, desc: false, nulls_first: false }];
+        return q;
+    }
+    // GROUP BY exactly two plain integer columns (what PackedGroupKeys matches)
+    if rng.chance(1, 8) {
+        let t = rng.pick(db);
+        let pairs = [("i1", "j0"), ("j0", "i1"), ("i0", "i1"), ("id", "i1"), ("i1", "i0")];
+        let (a, b) = *rng.pick(&pairs);
+        let core = format!("SELECT r0.{} AS c0, r0.{} AS c1, COUNT(*) AS c2, SUM(r0.id) AS c3 FROM {} AS r0 GROUP BY r0.{}, r0.{}", a, b, t.name, a, b);
+        return GenQuery { sql: core.clone(), full_sql: core, keys: vec![], limit: None, offset: 0, tags: vec!["two-int-keys".into(), "group-by".into()], ncols: 4 };
+    }
     let mut g = G::new(rng, Feats::all());
     g.total_order_limit = true;
     match g.rng.below(10) {
         0..=3 => g.q_simple(db, 3),
         _ => g.q_agg(db, 3),
+    }
+}
+
+/// A dimension with a unique, NULL-free but SPARSE key and a fact table whose
+/// foreign keys lie inside the key's range, some of them in its holes, with the
+/// dangling ones often the biggest spenders (so they rank inside a Top-N).
+fn cust_ord(rng: &mut Rng) -> Vec<Table> {
+    use crate::data::Col;
+    let nc = 3 + rng.usize(30);
+    let step = 2 + rng.usize(3) as i64;
+    let cust = Table {
+        name: "cust".into(),
+        cols: vec![Col { name: "c_id".into(), ty: Ty::I64, nullable: false }, Col { name: "c_name".into(), ty: Ty::Str, nullable: false }],
+        rows: (0..nc).map(|i| vec![Cell::Int(1 + i as i64 * step), Cell::S(format!("cust#{}", i))]).collect(),
+    };
+    let hi = 1 + (nc as i64 - 1) * step;
+    let no = 5 + rng.usize(150);
+    let ord = Table {
+        name: "ord".into(),
+        cols: vec![Col { name: "o_id".into(), ty: Ty::I64, nullable: false }, Col { name: "o_cid".into(), ty: Ty::I64, nullable: false }, Col { name: "o_amt".into(), ty: Ty::I64, nullable: false }],
+        rows: (0..no)
+            .map(|i| {
+                let cid = rng.range(1, hi + 1);
+                let dangling = (cid - 1) % step != 0;
+                vec![Cell::Int(i as i64 + 1), Cell::Int(cid), Cell::Int(if dangling && rng.bool() { 500 + rng.range(0, 500) } else { rng.range(0, 100) })]
+            })
+            .collect(),
+    };
+    vec![cust, ord]
+}
+
+/// Data the statistics-driven rules react to, which the standard tables rarely
+/// have: NULL-free non-negative integer columns whose footer maximum is exactly
+/// a power of two (packing width boundaries), a unique key with holes, and
+/// foreign keys that fall into those holes.
+fn bait(rng: &mut Rng, db: &mut [Table]) {
+    for t in db.iter_mut() {
+        if rng.chance(1, 2) && !t.rows.is_empty() {
+            for (col, _) in [(2usize, "i1"), (3, "j0")] {
+                let k: i64 = 1 << rng.usize(5);
+                let n = t.rows.len();
+                for (ri, r) in t.rows.iter_mut().enumerate() {
+                    r[col] = Cell::Int(if ri == n / 2 { k } else { rng.range(0, k + 1) });
+                }
+            }
+        }
+        if rng.chance(1, 3) {
+            for r in t.rows.iter_mut() {
+                if let Cell::Int(i) = r[0] {
+                    r[0] = Cell::Int(i * 3);
+                }
+            }
+        }
+    }
+    if db.len() >= 2 && rng.chance(1, 2) {
+        let ids: Vec<i64> = db[1].rows.iter().filter_map(|r| if let Cell::Int(i) = r[0] { Some(i) } else { None }).collect();
+        if let (Some(lo), Some(hi)) = (ids.iter().min().copied(), ids.iter().max().copied()) {
+            for r in db[0].rows.iter_mut() {
+                r[1] = Cell::Int(rng.range(lo, hi + 1));
+            }
+        }
     }
 }
 
@@ -133,7 +224,11 @@ fn run_both(tier: Tier, seed: u64, c31: bool) -> i32 {
         let mut rng = Rng::new(s ^ 0xC03);
         let sc = if rng.chance(1, 5) { SizeClass::Tiny } else { SizeClass::Small };
         let nt = 1 + rng.usize(3);
-        let db = gen_db(&mut rng, nt, sc);
+        let mut db = gen_db(&mut rng, nt, sc);
+        bait(&mut rng, &mut db);
+        if rng.chance(1, 3) {
+            db.extend(cust_ord(&mut rng));
+        }
         let layout = if rng.chance(3, 4) { Layout::Parquet } else { Layout::MemSplit };
         let lname = if layout == Layout::Parquet { "parquet" } else { "memk" };
         let dir = sp.join(format!("db{}", s));
